@@ -8,6 +8,7 @@ import (
 	"math/rand"
 	"os"
 	"strings"
+	"sync"
 	"testing"
 	"testing/synctest"
 	"time"
@@ -97,6 +98,9 @@ func derived(p, svc, prod, region string, rng *rand.Rand) []string {
 	if len(p) > 1 {
 		out = append(out, p[:len(p)-1], p[1:], p[:len(p)/2])
 	}
+	// ids that are not valid UTF-8 and differ only in the invalid bytes (they collide if ids are ever "sanitised"),
+	// ids with format verbs
+	out = append(out, p+"\xff", p+"\xfe", p+"\xc3", "\xff"+p, p+"\xff\xfe", p+"\ufffd", p+"%", p+"%s", p+"%d", p+"%!s(MISSING)", p+"%25")
 	// ids that would match p if an id were ever interpreted as a pattern (regular expression, glob, SQL LIKE)
 	out = append(out, p+"+", p+"*", p+"?", p+".*", "("+p+")", p+"|zzz", "zzz|"+p, "^"+p, p+"$", "["+p+"]", p+"%", p+"_", "%", ".*", "*", p+"{1}", "\\Q"+p+"\\E")
 	if len(p) > 1 {
@@ -125,7 +129,7 @@ func swapCase(p string) string {
 
 func TestC06(t *testing.T) {
 	r := ev.Start("C06", "exploration")
-	r.Rule("pairs of distinct partition ids (A,B) generated from the key-id naming scheme (B = A + _service_product[_region], prefixes, suffixes, case, case-fold twins and unicode variants, ids that would match the other id if ids were interpreted as patterns (regex / glob / LIKE metacharacters), ids embedding _IK_/_SK_, 255-byte ids, random ids; service/product with and without underscores), each executed through the real decrypt path in both directions on one factory: records produced for A are decrypted through a session for B in cold, warm and shared-IK-cache-already-holding-A's-key states, over a plain metastore, a suffix-advertising wrapper and the real DynamoDB v1/v2 metastores with region suffix over the fake. Every foreign record is presented three times in a row (once more after one of the session's own records). Oracle: err != nil each time. Empty partition id must be refused. A lifecycle pass uses sessions after Close, closes them twice and interleaves sessions of other partitions: no session ever returns plaintext for another partition's record. Companion cases (same partition across region suffixes, legacy unsuffixed ids) are executed and only counted. Distinct+non-trivial: distinct (service, product, A, B, store, cache state) tuples that reached the partition guard.")
+	r.Rule("pairs of distinct partition ids (A,B) generated from the key-id naming scheme (B = A + _service_product[_region], prefixes, suffixes, case, case-fold twins and unicode variants, ids that would match the other id if ids were interpreted as patterns (regex / glob / LIKE metacharacters), ids with invalid UTF-8 bytes and format verbs, ids embedding _IK_/_SK_, 255-byte ids, random ids; service/product with and without underscores), each executed through the real decrypt path in both directions on one factory: records produced for A are decrypted through a session for B in cold, warm and shared-IK-cache-already-holding-A's-key states, over a plain metastore, a suffix-advertising wrapper and the real DynamoDB v1/v2 metastores with region suffix over the fake. Every foreign record is presented three times in a row (once more after one of the session's own records). Oracle: err != nil each time. Empty partition id must be refused. A lifecycle pass uses sessions after Close, closes them twice and interleaves sessions of other partitions: no session ever returns plaintext for another partition's record. Companion cases (same partition across region suffixes, legacy unsuffixed ids) are executed and only counted. Distinct+non-trivial: distinct (service, product, A, B, store, cache state) tuples that reached the partition guard.")
 	r.Assume("region suffixes are AWS region names (no underscores)")
 	nBase := ev.Pick(14, 400)
 	rng := rand.New(rand.NewSource(ev.Seed()))
@@ -134,7 +138,7 @@ func TestC06(t *testing.T) {
 	defer static.Close()
 
 	svcs := [][2]string{{"svc", "prod"}, {"s", "s"}, {"my_service", "my_product"}, {"a", "b_c"}}
-	bases := []string{"a", "user_42", "p", "tenant-7", "aB3xK9q", "sks", "üñí", "A_B_C", strings.Repeat("x", 255), "_IK_a", "a_svc_prod", "s", "42", "a_s"}
+	bases := []string{"a", "user_42", "p", "tenant-7", "aB3xK9q", "sks", "tenant-\xff", "100%", "user%40example.com", "üñí", "A_B_C", strings.Repeat("x", 255), "_IK_a", "a_svc_prod", "s", "42", "a_s"}
 	for len(bases) < nBase {
 		n := 1 + rng.Intn(12)
 		b := make([]byte, n)
@@ -282,6 +286,7 @@ func TestC06(t *testing.T) {
 		}
 	}
 	lifecyclePass(r)
+	concurrentSessionsPass(r)
 	companionCrossRegion(r)
 	r.Finish(t)
 }
@@ -405,6 +410,83 @@ func lifecyclePass(r *ev.Run) {
 				r.Distinct(fmt.Sprintf("lifecycle|%s|%d|%d", sk.name, ci, i%3))
 			}
 			func() { defer func() { _ = recover() }(); f.Close() }()
+		}
+	}
+}
+
+// concurrentSessionsPass: many goroutines open sessions for different partitions of one factory at the same time
+// (no session caching, so every GetSession builds its partition object anew) and present the other partitions'
+// records: the session a caller was handed for its id must be bound to that id.
+func concurrentSessionsPass(r *ev.Run) {
+	ctx := context.Background()
+	crypto := aead.NewAES256GCM()
+	static, _ := kms.NewStatic("thisIsAStaticMasterKeyForTesting", crypto)
+	defer static.Close()
+	for _, sk := range storeKinds()[:2] {
+		for _, shared := range []bool{false, true} {
+			cfg := world.Default(time.Hour, time.Hour, time.Minute)
+			if shared {
+				cfg.SharedIK, cfg.IKPolicy, cfg.IKCap = true, "lru", 8
+			}
+			journal(fmt.Sprintf("C06 concurrent sessions store=%s shared=%v", sk.name, shared))
+			f := appencryption.NewSessionFactory(&appencryption.Config{Service: "svc", Product: "prod", Policy: cfg.Policy()}, sk.mk(), static, crypto)
+			parts := []string{"alice", "bob", "carol", "dave"}
+			recs := map[string]*appencryption.DataRowRecord{}
+			for _, p := range parts {
+				s, _ := f.GetSession(p)
+				d, err := s.Encrypt(ctx, []byte("secret of "+p))
+				if err != nil {
+					panic(err)
+				}
+				recs[p] = d
+				s.Close()
+			}
+			rounds := ev.Pick(150, 3000)
+			var wg sync.WaitGroup
+			type leak struct{ own, other string }
+			leaks := make([][]leak, 8)
+			ownFails := make([]int, 8)
+			for g := 0; g < 8; g++ {
+				g := g
+				wg.Add(1)
+				go func() {
+					defer wg.Done()
+					own := parts[g%len(parts)]
+					for i := 0; i < rounds; i++ {
+						s, err := f.GetSession(own)
+						if err != nil {
+							continue
+						}
+						other := parts[(g+1+i%3)%len(parts)]
+						if other != own {
+							if _, err := s.Decrypt(ctx, *world.CopyDRR(recs[other])); err == nil {
+								leaks[g] = append(leaks[g], leak{own, other})
+							}
+						}
+						if out, err := s.Decrypt(ctx, *world.CopyDRR(recs[own])); err != nil || string(out) != "secret of "+own {
+							ownFails[g]++
+						}
+						s.Close()
+					}
+				}()
+			}
+			wg.Wait()
+			f.Close()
+			r.Eval(8 * rounds)
+			r.Distinct(fmt.Sprintf("concurrent-sessions|%s|%v", sk.name, shared))
+			for g := range leaks {
+				if len(leaks[g]) > 0 {
+					l := leaks[g][0]
+					r.Violation("c06-foreign-decrypt:concurrent-get-session", fmt.Sprintf("store=%s shared-ik=%v: while other goroutines opened sessions for other partitions, the session handed out for %q decrypted a record of %q (%d times)", sk.name, shared, l.own, l.other, len(leaks[g])),
+						map[string]any{"store": sk.name, "session_partition": l.own, "record_partition": l.other})
+					break
+				}
+			}
+			n := 0
+			for _, k := range ownFails {
+				n += k
+			}
+			r.Count("concurrent_sessions_own_record_failures", int64(n))
 		}
 	}
 }
